@@ -92,7 +92,8 @@ def row_valued_in_once(recipe):
 
 once_cluster = S.stream_once_cluster
 DIRECTED = [S.stream_once_cluster, S.stream_once_cluster, S.stream_once_hidden, S.stream_idle_middle, S.stream_idle_middle,
-            S.stream_randref_nicks, S.stream_once_cluster_randref]
+            S.stream_randref_nicks, S.stream_once_cluster_randref, S.stream_once_same_table_nick_order,
+            S.stream_history_rows_hold_once_refs, S.stream_history_rows_hold_once_refs]
 
 
 def generate(rng, tier):
